@@ -3,11 +3,13 @@ From QV.Model Require Import Base Matrix Convert Reduce.
 Open Scope Q_scope.
 
 Record cin := { d_kind : kind; d_terms : terms; d_upd : terms; d_meth : nat;     (* 0 to_pubo 1 to_qubo 2 to_quso 3 to_puso *)
-                d_deg : option nat; d_lam : lam_spec; d_pairs : list key }.
+                d_deg : option nat; d_lam : lam_spec; d_pairs : list key;
+                d_mp : option (list (label * nat)) }.     (* set_mapping / set_reverse_mapping before the conversion *)
 Inductive cout := OModelOut (k : kind) (t : terms) | OErr (e : err).
 
 Definition run_case (c : cin) : cout :=
-  match bind (m_create (d_kind c) (d_terms c)) (fun m => bind (m_update m (d_upd c)) (fun m =>
+  match bind (m_create (d_kind c) (d_terms c)) (fun m => bind (m_update m (d_upd c)) (fun m0 =>
+          let m := match d_mp c with None => m0 | Some l => set_mapping m0 l end in
           if is_spin (d_kind c) then
             match d_meth c with
             | 0%nat => puso_to_pubo_m m (d_deg c) (d_lam c) (d_pairs c)
